@@ -1772,19 +1772,32 @@ func checkFrontEndOutcomes(c *report.Ctx) {
 		"ErrReserveReservationDone": {500, false}, "ErrAlreadyInvocating": {400, false}, "ErrInvokeReservationDone": {500, false},
 		"ErrInvokeDoneFailed": {500, true}, "ErrReleaseReservationDone": {500, false},
 	}
+	// the blocks of a case: what is reachable after the call when every test of its error is decided as for that
+	// sentinel (arms merged with `case A, B:` or `||` lose their branch facts at the join; this walk does not)
+	_ = facts
 	caseBlocks := map[string][]*ssa.BasicBlock{}
-	for _, b := range f.Blocks {
-		var errs []string
-		for _, ft := range facts.At(b) {
-			bo, ok := ft.Cond.(*ssa.BinOp)
-			if ok && bo.Op == token.EQL && ft.Val {
-				if g := an.GlobalOf(bo.Y); strings.HasPrefix(g, "L/rapidcore.Err") {
-					errs = append(errs, strings.TrimPrefix(g, "L/rapidcore."))
+	for _, e := range []string{"ErrAlreadyReserved", "ErrInternalServerError", "ErrInitDoneFailed", "ErrReserveReservationDone", "ErrAlreadyInvocating", "ErrInvokeReservationDone", "ErrInvokeDoneFailed", "ErrReleaseReservationDone", "ErrInvokeTimeout"} {
+		skip := assumeErrIs(inv[0].Value(), "L/rapidcore."+e)
+		seen := map[*ssa.BasicBlock]bool{}
+		var walk func(b *ssa.BasicBlock)
+		walk = func(b *ssa.BasicBlock) {
+			if seen[b] {
+				return
+			}
+			seen[b] = true
+			caseBlocks[e] = append(caseBlocks[e], b)
+			for _, sx := range b.Succs {
+				if !skip(b, sx) {
+					walk(sx)
 				}
 			}
 		}
-		if len(errs) == 1 {
-			caseBlocks[errs[0]] = append(caseBlocks[errs[0]], b)
+		start := inv[0].Block()
+		seen[start] = true
+		for _, sx := range start.Succs {
+			if !skip(start, sx) {
+				walk(sx)
+			}
 		}
 	}
 	var names []string
@@ -2100,6 +2113,65 @@ func checkAgentMapsAsArray(c *report.Ctx) {
 			}
 		})
 		c.Check("R-WIRE", an.FuncName(f)+"/every-entry", "AsArray appends every entry of the map to the slice it returns (it walks an index, itself or through Visit, and appends the visited element)", appends >= 1 && inRange && visits+loops >= 1, fpos(f), appends, "appends: %d, inside the walk: %v; Visit calls: %d, ranges over an index: %d", appends, inRange, visits, loops)
+	}
+}
+
+// assumeErrIs returns the edge filter "this edge is not taken when errv is the sentinel `global`": tests of errv
+// against nil and against package-level error variables are decided, everything else is left open.
+func assumeErrIs(errv ssa.Value, global string) func(from, to *ssa.BasicBlock) bool {
+	isErr := func(v ssa.Value) bool {
+		v = an.Strip(v, false)
+		if v == errv {
+			return true
+		}
+		for _, l := range an.PhiLeaves(v) {
+			if an.Strip(l, false) == errv {
+				return true
+			}
+		}
+		return false
+	}
+	return func(from, to *ssa.BasicBlock) bool {
+		iff, ok := from.Instrs[len(from.Instrs)-1].(*ssa.If)
+		if !ok || len(from.Succs) != 2 || from.Succs[0] == from.Succs[1] {
+			return false
+		}
+		cond, neg := iff.Cond, false
+		for i := 0; i < 4; i++ {
+			if u, isU := cond.(*ssa.UnOp); isU && u.Op == token.NOT {
+				cond, neg = u.X, !neg
+				continue
+			}
+			break
+		}
+		bo, isBO := cond.(*ssa.BinOp)
+		if !isBO || (bo.Op != token.EQL && bo.Op != token.NEQ) {
+			return false
+		}
+		var other ssa.Value
+		switch {
+		case isErr(bo.X):
+			other = bo.Y
+		case isErr(bo.Y):
+			other = bo.X
+		default:
+			return false
+		}
+		var eq bool
+		switch {
+		case an.IsNil(other):
+			eq = false
+		case an.GlobalOf(an.Strip(other, false)) != "":
+			eq = an.GlobalOf(an.Strip(other, false)) == global
+		default:
+			return false
+		}
+		val := (eq == (bo.Op == token.EQL)) != neg
+		taken := from.Succs[1]
+		if val {
+			taken = from.Succs[0]
+		}
+		return to != taken
 	}
 }
 
